@@ -10,6 +10,7 @@ CONSTANTS
   BugH9 = TRUE
   BugH10 = TRUE
   BugMetaStale = TRUE
+  BugH11 = FALSE
   KRounds = 12
-INVARIANTS TraceNotStuck C09ModKF C09Note
+INVARIANTS TraceNotStuck C09ModKFT C09Note
 CHECK_DEADLOCK FALSE
